@@ -20,7 +20,9 @@ def run(ctx):
         shp, total_shapes, _ = zc.shapes(ctx, 12 if quick else 120, ctx.seed)
         cov.update(tlc_tree_shapes=total_shapes, shapes_replayed=len(shp))
         validated, events, fresh, sethead_events, samples = 0, 0, 0, 0, []
-        plans = [("shapes", shp, 0)] + [("rand%d" % i, None, 50 if quick else 150) for i in range(1 if quick else 5)]
+        # long traces make trace validation quadratic: at most 12 TLC shapes (about 80 blocks) per driver run
+        chunks = [shp[i:i + 12] for i in range(0, len(shp), 12)]
+        plans = [("shapes%d" % i, c, 0) for i, c in enumerate(chunks)] + [("rand%d" % i, None, 50 if quick else 120) for i in range(1 if quick else 5)]
         for i, (tag, shapes_list, steps) in enumerate(plans):
             sub = dbdir / tag; sub.mkdir()
             seed = ctx.seed * 100 + i
